@@ -17,6 +17,13 @@ struct Node {
 
 /// Builds a darts-clone style double array for `keys` (key -> offset into the replacement table).
 pub fn build_trie(keys: &[(Vec<u8>, u32)]) -> Vec<u32> {
+    build_trie_with(keys, false)
+}
+
+/// `minimal`: first fit by SLOT as darts-clone does it (the first label goes to the lowest free unit), without
+/// padding: the base of a node that ends no key then often lies beyond the last unit of the trie while all its
+/// children lie inside — a position that is never looked at.
+pub fn build_trie_with(keys: &[(Vec<u8>, u32)], minimal: bool) -> Vec<u32> {
     let mut nodes: Vec<Node> = vec![Node::default()];
     for (k, v) in keys {
         let mut cur = 0;
@@ -51,8 +58,12 @@ pub fn build_trie(keys: &[(Vec<u8>, u32)]) -> Vec<u32> {
             continue;
         }
         let mut base = 1usize;
+        let mut slot0 = 1usize;
         loop {
-            let ok = !used_bases.contains(&base) && labels.iter().all(|&l| {
+            if minimal {
+                base = slot0 ^ labels[0] as usize;
+            }
+            let ok = base != 0 && !used_bases.contains(&base) && labels.iter().all(|&l| {
                 let slot = base ^ l as usize;
                 slot != pos && (slot >= used.len() || !used[slot])
             });
@@ -60,6 +71,7 @@ pub fn build_trie(keys: &[(Vec<u8>, u32)]) -> Vec<u32> {
                 break;
             }
             base += 1;
+            slot0 += 1;
         }
         used_bases.insert(base);
         let offset = pos ^ base;
@@ -204,7 +216,7 @@ pub fn gen(rng: &mut Rng, thorough: bool, out: &mut Sink) {
             }
             normalized.push(0);
         }
-        let units = build_trie(&keys);
+        let units = build_trie_with(&keys, rng.chance(1, 2));
         let blob = blob_of(&units, &normalized);
         out.push(load_line(&blob));
         let map = match CharsMap::try_from(blob.as_slice()) {
